@@ -2,6 +2,7 @@
 package main
 
 import (
+	"runtime/pprof"
 	"encoding/json"
 	"flag"
 	"fmt"
@@ -88,7 +89,13 @@ func cmdG(args []string) {
 	schedSteps := fs.Int("sched-steps", 400, "scheduling points per path")
 	preempt := fs.Int("preempt", -1, "preemption bound of the scheduler (-1 = unbounded)")
 	stubs := fs.String("stubs", "", "environment stub set: archive:<namelen>:<entries>")
+	cpuprof := fs.String("cpuprofile", "", "write a CPU profile")
 	fs.Parse(args)
+	if *cpuprof != "" {
+		f, _ := os.Create(*cpuprof)
+		pprof.StartCPUProfile(f)
+		defer pprof.StopCPUProfile()
+	}
 
 	ov := map[string][]byte{}
 	for _, o := range overlays {
